@@ -81,6 +81,30 @@ def shrink_factory(ctx, prop):
     return shrink
 
 
+def via_cases(ctx, prop, n, faulty=True, throttled=False):
+    """the same kind of scenario with a real scheduler adapter's `check_jobs` between the scripted
+    scheduler and the graph (harness/viasched.py): what the scheduler says is written down as
+    squeue / sacct / bjobs output, and the graph gets what the real adapter reads out of it"""
+    out = []
+    for k in range(n):
+        scn = E.gen_scenario(ctx.rng, maxn=6)
+        scn["dry"] = 0
+        scn["sched"] = [1] * scn["n"]
+        if faulty:
+            scn["faulty"] = 1
+        if throttled:
+            scn["throttle"] = ctx.rng.choice([1, 2, 3])
+        scn["via"] = ("slurm", "lsf")[k % 2]
+        scn["via_seed"] = ctx.rng.randint(0, 10 ** 9)
+        c = run_one(ctx, prop, scn, rng=ctx.rng)
+        out.append(c)
+        ctx.count("via:" + scn["via"])
+        for o in c.trace:
+            if o.op["op"] == "poll":
+                ctx.count("via-code:%s:%s" % (scn["via"], o.op["code"]))
+    return out
+
+
 def run(ctx, prop, escalated=False, finish=True):
     quick = ctx.tier == "quick" and not escalated
     n_random = 2500 if quick else 40000
